@@ -768,7 +768,9 @@ func runC13(c *h.Ctx) {
 			}
 		}
 	}
-	seqs := []string{`[1,2,3]`, `["x",2,3]`, `[1,"x",3]`, `[1,2,"x"]`, `[1,null,3]`, `[1,[2],3]`, `[1,{},3]`, `[true]`, `[]`, `[1.5,-2]`}
+	seqs := []string{`[1,2,3]`, `["x",2,3]`, `[1,"x",3]`, `[1,2,"x"]`, `[1,null,3]`, `[1,[2],3]`, `[1,{},3]`, `[true]`, `[]`, `[1.5,-2]`,
+		// lax unwrapping can shrink a sequence: empty arrays contribute nothing
+		`[[5],[]]`, `[[],5]`, `[5,[]]`, `[[],[],[7]]`, `[[5]]`, `[[]]`, `[[],[]]`, `[[2,3],[]]`, `[[],["x"]]`, `[[[5]],[]]`}
 	for i, sq := range seqs {
 		if !c.Mine(i) {
 			continue
@@ -846,6 +848,17 @@ func runC13(c *h.Ctx) {
 						expErr := true
 						switch form {
 						case "$[*] %s 1", "1 %s $[*]":
+							if mode == "" {
+								var un []any // lax: the operand's items are unwrapped one level
+								for _, el := range arr {
+									if sub, ok := el.([]any); ok {
+										un = append(un, sub...)
+									} else {
+										un = append(un, el)
+									}
+								}
+								arr = un
+							}
 							expErr = !(len(arr) == 1 && h.IsNum(arr[0]))
 						case `$[0] %s $[1]`:
 							one := func(v any) (any, bool) { // lax: a one-element array operand is unwrapped
@@ -883,6 +896,55 @@ func runC13(c *h.Ctx) {
 							c.Violate("singleton", h.F("op", op, "form", form, "mode", mode), fmt.Sprintf("Query(%s) on %s = %s; error expected: %v", ptxt, sq, o.Summary(), expErr), cs)
 						} else {
 							c.Held("singleton")
+						}
+					}
+				}
+			}
+		}
+	}
+	// a unary operator inside parentheses with steps after it: the steps get
+	// what the operator yields, so a non-numeric operand fails before them -
+	// also when only existence is asked for
+	{
+		k := 0
+		for _, form := range []string{"(-$.a).type()", "(+$.a).type()", "(-$.a).string()", "(-$.a[*]).double()", "(+$.a).size()", "(-$.a).abs()", "$ ? (exists((-@.a).type()))", "$ ? ((-@.a).type() == \"number\")", "(-$.a) ? (@ < 0)", "(-$.a)[0]"} {
+			for _, d := range []string{`{"a":"x"}`, `{"a":true}`, `{"a":["x",1]}`, `{"a":null}`, `{"a":{}}`, `{"a":["1.5"]}`, `{"a":5}`, `{"a":[1,2]}`, `{"a":[[1]]}`} {
+				for _, mode := range []string{"", "strict "} {
+					k++
+					if !c.Mine(k) {
+						continue
+					}
+					p := cachedPath(mode + form)
+					if p == nil {
+						c.Count("gen.unparsable", 1)
+						continue
+					}
+					for _, silent := range []bool{false, true} {
+						q := h.Call("query", p, h.Decode(d, false), h.Opts{Silent: silent})
+						e := h.Call("exists", p, h.Decode(d, false), h.Opts{Silent: silent})
+						f := h.Call("first", p, h.Decode(d, false), h.Opts{Silent: silent})
+						c.Eval(3)
+						cs := h.Case{Kind: "unary-chain", Path: mode + form, Doc: d, Silent: silent}
+						if q.Class == h.Panic || e.Class == h.Panic || f.Class == h.Panic {
+							continue
+						}
+						// verbose: the three agree on failing; silent: a failed Query is
+						// an empty result, a failed Exists NULL - never "true"
+						good := true
+						switch {
+						case !silent:
+							good = (q.Class == h.Soft) == (e.Class == h.Soft) && (q.Class == h.Soft) == (f.Class == h.Soft) && (q.Class != h.OK || e.Bool == (len(q.Items) > 0))
+						default:
+							vq := h.Call("query", p, h.Decode(d, false), h.Opts{})
+							c.Eval(1)
+							if vq.Class == h.Soft && len(q.Items) == 0 {
+								good = e.Class == h.Null || (e.Class == h.OK && !e.Bool)
+							}
+						}
+						if !good {
+							c.Violate("unary.nonnumeric", h.F("form", "chained", "mode", mode, "silent", fmt.Sprint(silent)), fmt.Sprintf("%s on %s: Query %s, First %s, Exists %s", mode+form, d, q.Summary(), f.Summary(), e.Summary()), cs)
+						} else {
+							c.Held("unary.nonnumeric")
 						}
 					}
 				}
